@@ -154,9 +154,12 @@ def rule_cross_class_state_keyed_by_class(ctx, rep: Report, rid="X4"):
                 f"counter, so wrapping / ignoring one changes the docstrings of the other", f"{ci.mod.rel}:{kx.lineno}")
     pwc = prog.cls("PybindWrapper")
     wm = prog.method("PybindWrapper", "_wrap_method")
-    call = next((c for c in ast.walk(wm) if isinstance(c, ast.Call) and isinstance(c.func, ast.Attribute) and c.func.attr == "extract_docstring"), None)
+    from .rules_xml import docstring_source
+    holder, _tpl, _e, _ok, body, pmap, _hc = docstring_source(ctx)
+    call = next((c for c in ast.walk(body) if isinstance(c, ast.Call) and isinstance(c.func, ast.Attribute) and c.func.attr == "extract_docstring"), None)
+    cls_arg = pmap.get(unparse(call.args[1]), unparse(call.args[1])) if call is not None and len(call.args) >= 2 else None
     rep.add(rid, "_wrap_method:passes the class's full C++ name to the docstring lookup",
-            call is not None and len(call.args) >= 2 and unparse(call.args[1]) == func_params(wm)[2], "", f"{pwc.mod.rel}:{wm.lineno}",
+            cls_arg == func_params(wm)[2], f"class argument {cls_arg}", f"{pwc.mod.rel}:{wm.lineno}",
             nontrivial=False)
 
 
